@@ -88,6 +88,8 @@ def run_gen(case, R):
     for g in m.get('generators', []):
         if g['time']: R.label('gentable:%d%s' % (len(g['time']), 'E' if g['enthalpy'] else ''))
     R.label('incons:%d' % len(m['param']['default_incons']))
+    _dt = m['param'].get('const_timestep') or 0
+    if _dt < 0: R.label('timestep-table:%s' % ('last-record-partly-or-not-used' if len(m['param']['timestep']) <= 8 * (int(-_dt) - 1) else 'all-records-used'))
     opt = [k for k in secs if k not in ('PARAM', 'ELEME', 'CONNE', 'SIMUL')]
     R.nontrivial(len(opt) >= 3 and bool(m['blocks'] or m.get('generators') or m.get('rocks')))
     tmp = R.tmp
